@@ -154,6 +154,24 @@ def pyRepr (x : Float) : String :=
 def floatDisplay (x : Float) : String :=
   if isIntegral x then toString (floatToInt x) else pyRepr x
 
+/-- exact decimal of the shortest round-tripping digits -/
+def floatToDec (x : Float) : Int × Int :=
+  if x == 0 then (0, 0) else
+  let (d, k, e10) := shortest x
+  ((if x < 0 then -(d : Int) else (d : Int)), e10 - (k : Int) + 1)
+
+def floatKernel1 (n : String) (x : Float) : Float :=
+  match n with
+  | "SQRT" => x.sqrt | "EXP" => x.exp | "LN" => x.log | "LOG10" => x.log10
+  | "SIN" => x.sin | "COS" => x.cos | "TAN" => x.tan | "ASIN" => x.asin | "ACOS" => x.acos | "ATAN" => x.atan
+  | "SINH" => x.sinh | "COSH" => x.cosh | "TANH" => x.tanh | "ASINH" => x.asinh | "ACOSH" => x.acosh | "ATANH" => x.atanh
+  | _ => x
+
+def floatKernel2 (n : String) (x y : Float) : Float :=
+  match n with
+  | "ATAN2" => Float.atan2 x y
+  | _ => x
+
 instance : Num Float where
   zero := 0.0
   one := 1.0
@@ -171,5 +189,9 @@ instance : Num Float where
   eq := fun a b => a == b
   ofText := floatOfText
   display := floatDisplay
+  toDec := floatToDec
+  ofDec := fun m e => floatOfDecimal (m < 0) m.natAbs e
+  kernel1 := floatKernel1
+  kernel2 := floatKernel2
 
 end XL
